@@ -7,7 +7,7 @@ from runner import Case, CaseSet
 from props.c02 import py_delta
 
 ID = 'C03'
-OBLIGATIONS = ['Props/C03.v', 'Props/Tie/charge_tie.v', 'Props/Tie/delta_formulas_tie.v', 'Props/Tie/deltamax_tie.v']
+OBLIGATIONS = ['Props/C03.v', 'Props/Tie/charge_tie.v', 'Props/Tie/delta_formulas_tie.v', 'Props/Tie/deltamax_tie.v', 'Props/Tie/minipy_forward_c03_tie.v']
 RULE = ('every composition (n+,n-,n0) with N <= B (quick 18, thorough 28) in 2 random arrangements+spellings, random '
         'compositions up to N=120 (regime 4 kept <= 60), each through get_deltaMax() and get_deltaMax(True); '
         'non-trivial = distinct sequence with a charged residue and N >= 6')
